@@ -14,7 +14,7 @@ from worlds.queue_world import QueueWorld, BACKOFFS
 PROPERTY = 'C01'
 LEVEL = 'model_checking'
 EXHAUSTIVE = True
-BACKENDS = ('dict', 'disk', 'redis', 'cloud')
+BACKENDS = ('dict', 'shelf', 'disk', 'redis', 'cloud')
 
 RULE = ('per configuration (backend x backoff x messages x recipients x pools x bounce set-up): all relay outcome '
         'histories with at most dd non-default outcomes and all loop-level schedules with at most d deviations, '
@@ -44,7 +44,7 @@ def configs(tier, seed):
         cfgs.append(dict(backend=b, backoff='r10', n=2, messages=2, d=1, dd=2, menu={}, relay_pool=1, store_pool=1))
         cfgs.append(dict(backend=b, backoff='r10', n=2, messages=1, d=1, dd=3, menu={}, bounce='none'))
         cfgs.append(dict(backend=b, backoff='r10', n=2, messages=1, d=1, dd=3, menu={}, bounce_queue='separate'))
-        if b in ('dict', 'disk'):
+        if b in ('dict', 'shelf', 'disk'):
             # bounded store pool alone (redis/cloud park wait() in a store slot, so size 1 would accept nothing at all)
             cfgs.append(dict(backend=b, backoff='r10', n=2, messages=2, d=1, dd=2 if q else 3, menu={}, store_pool=1))
             cfgs.append(dict(backend=b, backoff='r10', n=2, messages=2, d=1, dd=2 if q else 3, menu={}, store_pool=2, relay_pool=1))
